@@ -7,7 +7,8 @@ Driver entry for C11.
       fs    : `-` | `<path>,<mode>,<hex>+…`           (mode decimal, content hex)
       step  : `R|<files>|<sched>`  |  `S|<sched>`
       files : `-` | `<path>,<r|s>,<hex>+…`
-      sched : `-` | `<opidx>:<e|n|pN|cN>+…`
+      sched : `-` | `<opidx>:<e|n|w|a|v|pN|cN>+…`   (e/a/v/w: the operation fails without effect, error value EIO-ish /
+              EACCES / wrapped EIO / wrapped ENOENT; n: ENOENT — on remove the file has vanished, elsewhere just the value)
   model out : `<outcome>|<ops>|<fs sorted by path>|<lastWrittenPaths>` per step, joined by `;`
   judge in  : scenario fields plus `obs=<o>;<o>;…`, one `o` per step:
               `<outcome>|<ops>|<fs>|<last>|<failinfo>`   failinfo: `-` | `<opkind>@<path>`
@@ -66,6 +67,9 @@ def parseFault (s : String) : Option (Nat × Fault) :=
     let k ← k.toNat?
     if f == "e" then pure (k, .eio)
     else if f == "n" then pure (k, .enoent)
+    -- error VALUES of a failing operation (wrapped ENOENT, bare EACCES, wrapped EIO): for the model every error of
+    -- create/chmod/write aborts the call, and on remove only the OS's own (bare) ENOENT is "already gone"
+    else if f == "w" || f == "a" || f == "v" then pure (k, .eio)
     else if f.startsWith "p" then pure (k, .partialW (← (f.drop 1).toString.toNat?))
     else if f.startsWith "c" then pure (k, .crash (← (f.drop 1).toString.toNat?))
     else none
